@@ -84,41 +84,48 @@ def strace_pass(chk, binary, m):
 
 
 def first_object_pass(chk, binary, m, tier):
-    """One fresh process per first object: object f is linted first, then a fixed probe set.
-    All processes must produce the same probe tables."""
+    """One fresh process per first object (corpus + KU×EKU templates): object f is linted first, then a fixed
+    probe set. All processes must produce the same probe tables (first-call-wins caches), and f's own
+    fresh verdict is the reference of the saturation history: three more processes lint EVERY object (in
+    forward / reverse order / first under a non-default configuration) and then every object again — the second-pass verdicts must equal the fresh ones."""
     from concurrent.futures import ThreadPoolExecutor
     tmp = os.path.join(chk.BUILD, "partials", "C05first")
     os.makedirs(tmp, exist_ok=True)
-    nseeds = int(m["counters"].get("seeds_total", 0)) or 0
-    if nseeds == 0:
-        import glob
-        nseeds = len(glob.glob(os.path.join(chk.REPO, "v3", "testdata", "*")))
-    step = 2 if tier == "quick" else 1
-    firsts = list(range(0, nseeds, step))
 
-    def one(f):
-        out = os.path.join(tmp, "f%d.json" % f)
-        p = subprocess.run([binary, "run", "C05first", "-args", "first=%d" % f, "-out", out], env=chk.GOENV,
+    def worker(check, args, tag):
+        out = os.path.join(tmp, "%s.json" % tag)
+        p = subprocess.run([binary, "run", check, "-args", args, "-out", out], env=chk.GOENV,
                            stdout=subprocess.PIPE, stderr=subprocess.STDOUT, text=True)
         if p.returncode != 0 or not os.path.exists(out):
-            return f, None
+            return None
         d = json.load(open(out))
         os.remove(out)
-        return f, d
+        return d
 
-    tables = {}
+    probe0 = worker("C05first", "first=-1", "count")
+    nobj = int(((probe0 or {}).get("counters") or {}).get("g_objects_total", 0))
+    if nobj == 0:
+        m["internal"].append("C05first: cannot count the objects")
+        return
+    firsts = list(range(nobj))
+
+    tables, fresh = {}, {}
     done = 0
     with ThreadPoolExecutor(max_workers=16) as ex:
-        for f, d in ex.map(one, firsts):
+        for f, d in zip(firsts, ex.map(lambda f: worker("C05first", "first=%d" % f, "f%d" % f), firsts)):
             if d is None:
+                m["internal"].append("C05first worker %d failed" % f)
                 continue
             if not (d.get("sets") or {}).get("first_tables"):
-                continue  # index beyond the seed list
+                continue
             done += 1
             name = next((n[6:] for n in d.get("notes") or [] if n.startswith("first=")), str(f))
             for member in d["sets"]["first_tables"]:
                 probe, h = member.rsplit("|", 1)
                 tables.setdefault(probe, {}).setdefault(h, []).append(name)
+            for member in d["sets"].get("fresh_tables", []):
+                obj, h = member.rsplit("|", 1)
+                fresh[obj] = h
     m["counters"]["first_object_processes"] = done
     m["counters"]["transitions"] = m["counters"].get("transitions", 0) + done
     m["counters"]["validated"] = m["counters"].get("validated", 0) + done * len(tables)
@@ -128,6 +135,28 @@ def first_object_pass(chk, binary, m, tier):
             k = "C05|history|first_call_wins|" + probe
             m["violations"][k] = {"key": k, "what": "object %s is judged differently when the process linted %s first (%d distinct result tables over %d fresh processes)" % (probe, ", ".join(minority[1][:3]), len(hs), done),
                                   "replay": {"op": "first_object", "probe": probe, "first": minority[1][:5]}, "count": len(minority[1])}
+    # saturation histories against the fresh-process verdicts
+    compared = 0
+    for order in ("fwd", "rev", "cfg"):
+        d = worker("C05sat", "order=" + order, "sat_" + order)
+        if d is None:
+            m["internal"].append("C05sat worker (%s) failed" % order)
+            continue
+        m["counters"]["transitions"] = m["counters"].get("transitions", 0) + int((d.get("counters") or {}).get("transitions", 0))
+        bad = []
+        for member in (d.get("sets") or {}).get("sat_tables", []):
+            obj, h = member.rsplit("|", 1)
+            if obj in fresh:
+                compared += 1
+                if fresh[obj] != h:
+                    bad.append(obj)
+        for obj in bad[:12]:
+            k = "C05|history|saturation|" + obj
+            m["violations"][k] = {"key": k, "what": "object %s is judged differently after the process has linted the whole object set (%s order, %d objects differ) than as the first work of a fresh process" % (obj, order, len(bad)),
+                                  "replay": {"op": "saturation", "object": obj, "order": order}, "count": len(bad)}
+    m["counters"]["saturation_comparisons"] = compared
+    m["counters"]["validated"] = m["counters"].get("validated", 0) + compared
+    m["notes"].append("history: %d fresh processes (one per object: corpus + KU×EKU templates), %d saturated verdicts compared with the fresh ones" % (done, compared))
 
 
 def run(chk, prop, spec, tier, seed, replay):
